@@ -540,7 +540,7 @@ func typeTestPrelude(af *ast.File) string {
 // checkReserved: no identifier of the function is one of the generator's own names
 func checkReserved(fd *ast.FuncDecl, base string) {
 	ast.Inspect(fd, func(x ast.Node) bool {
-		if id, ok := x.(*ast.Ident); ok && (lessReserved[id.Name] || strings.HasPrefix(id.Name, base)) {
+		if id, ok := x.(*ast.Ident); ok && id.Name != fd.Name.Name && (lessReserved[id.Name] || strings.HasPrefix(id.Name, base)) {
 			refuse("%s: the identifier %s is reserved by the generator", fd.Name.Name, id.Name)
 		}
 		return true
